@@ -721,7 +721,7 @@ func runC02(e *Env) error {
 	if e.Thorough() {
 		nrand = 6000
 	}
-	e.Res.Rule = fmt.Sprintf("dialects {mysql, postgres, sqlite} x (identity, deep copy, 20 random reorderings of tables/columns/indexes/fks/checks; the exhaustive single-edit catalogue of %d edits: add/drop table, add/drop column, modify column with every non-empty subset of {type,null,default,comment}, add/drop/modify primary key, add/drop index, modify index unique/desc/column/part order/extra part, add/drop fk, modify fk actions/columns/ref-columns/ref-table/arity, composite fk re-pairing, add/drop/modify check, table comment; PostgreSQL enum types: one enum replaced by every duplicate-free value list over 4 values, enums added/dropped/swapped (objectDiff model); current indexes under database-generated names vs desired unnamed indexes (same / other uniqueness, column, direction, arity; two candidates); %d random sets of 2-4 catalogue edits on distinct objects, each also applied to a reordered copy); real DefaultDiff.SchemaDiff in normalized mode; reported multiset of canonical changes with kind flags == catalogue expectation and == Lean model; non-trivial = at least one edit; distinct by (dialect, case)", len(cat)+len(cedits), nrand)
+	e.Res.Rule = fmt.Sprintf("dialects {mysql, postgres, sqlite} x (identity, deep copy, 20 random reorderings of tables/columns/indexes/fks/checks; the exhaustive single-edit catalogue of %d edits: add/drop table, add/drop column, modify column with every non-empty subset of {type,null,default,comment}, add/drop/modify primary key, add/drop index, modify index unique/desc/column/part order/extra part, add/drop fk, modify fk actions/columns/ref-columns/ref-table/arity, composite fk re-pairing, add/drop/modify check, table comment; random edit sets x random skip lists (schema.DiffSkipChanges) == model schemaDiffSkip; PostgreSQL enum types: one enum replaced by every duplicate-free value list over 4 values, enums added/dropped/swapped (objectDiff model); current indexes under database-generated names vs desired unnamed indexes (same / other uniqueness, column, direction, arity; two candidates); %d random sets of 2-4 catalogue edits on distinct objects, each also applied to a reordered copy); real DefaultDiff.SchemaDiff in normalized mode; reported multiset of canonical changes with kind flags == catalogue expectation and == Lean model; non-trivial = at least one edit; distinct by (dialect, case)", len(cat)+len(cedits), nrand)
 	var mu sync.Mutex
 	check := func(d, id string, base, edited []aTable, expect []string, rep any) {
 		got, err := c02Diff(d, base, edited)
@@ -855,6 +855,11 @@ func runC02(e *Env) error {
 		j := jobs[i]
 		check(j.d, j.id, j.base, j.edited, j.expect, map[string]any{"dialect": j.d, "case": j.id, "from": j.base, "to": j.edited, "expect": j.expect})
 	})
+	c02Skip(e, pool, func(kind, sig, what, chk string, rep any) {
+		mu.Lock()
+		e.Res.Violate(kind, sig, what, chk, rep)
+		mu.Unlock()
+	}, &mu)
 	c02Enums(e, pool, func(kind, sig, what, chk string, rep any) {
 		mu.Lock()
 		e.Res.Violate(kind, sig, what, chk, rep)
